@@ -226,6 +226,8 @@ where
             // Swap the Delete and Insert
             (DiffTag::Insert, DiffTag::Delete) | (DiffTag::Delete, DiffTag::Insert) => {
                 ops.swap(pointer - 1, pointer);
+                #[cfg(similar_verif)]
+                verif_swap::after_swap(ops, pointer - 1);
                 pointer -= 1;
             }
             // Merge the two ranges
@@ -333,6 +335,8 @@ where
             // Swap the Delete and Insert
             (DiffTag::Insert, DiffTag::Delete) | (DiffTag::Delete, DiffTag::Insert) => {
                 ops.swap(pointer, pointer + 1);
+                #[cfg(similar_verif)]
+                verif_swap::after_swap(ops, pointer);
                 pointer += 1;
             }
             // Merge the two ranges
@@ -348,4 +352,82 @@ where
         }
     }
     pointer
+}
+
+/// Verification hook (only with `--cfg similar_verif`): counts the
+/// delete/insert swaps performed by the clean-up and, when the thread-local
+/// switch is on, recomputes the carried indices of the two swapped ops.
+/// Used only to attribute a failing case to the swap site.
+#[cfg(similar_verif)]
+pub mod verif_swap {
+    use crate::DiffOp;
+    use std::cell::Cell;
+
+    thread_local! {
+        static REPAIR: Cell<bool> = Cell::new(false);
+        static SWAPS: Cell<u64> = Cell::new(0);
+    }
+
+    /// Turns the carried-index repair on or off for the current thread.
+    pub fn set_repair(on: bool) {
+        REPAIR.with(|r| r.set(on));
+    }
+
+    /// Number of swaps performed on this thread since the last reset.
+    pub fn swaps() -> u64 {
+        SWAPS.with(|s| s.get())
+    }
+
+    /// Resets the swap counter of the current thread.
+    pub fn reset_swaps() {
+        SWAPS.with(|s| s.set(0));
+    }
+
+    pub(crate) fn after_swap(ops: &mut [DiffOp], first: usize) {
+        SWAPS.with(|s| s.set(s.get() + 1));
+        if !REPAIR.with(|r| r.get()) {
+            return;
+        }
+        match (ops[first], ops[first + 1]) {
+            (
+                DiffOp::Insert {
+                    new_index, new_len, ..
+                },
+                DiffOp::Delete {
+                    old_index, old_len, ..
+                },
+            ) => {
+                ops[first] = DiffOp::Insert {
+                    old_index,
+                    new_index,
+                    new_len,
+                };
+                ops[first + 1] = DiffOp::Delete {
+                    old_index,
+                    old_len,
+                    new_index: new_index + new_len,
+                };
+            }
+            (
+                DiffOp::Delete {
+                    old_index, old_len, ..
+                },
+                DiffOp::Insert {
+                    new_index, new_len, ..
+                },
+            ) => {
+                ops[first] = DiffOp::Delete {
+                    old_index,
+                    old_len,
+                    new_index,
+                };
+                ops[first + 1] = DiffOp::Insert {
+                    old_index: old_index + old_len,
+                    new_index,
+                    new_len,
+                };
+            }
+            _ => {}
+        }
+    }
 }
